@@ -32,11 +32,6 @@ Definition EDuplicatedKey : N := 17.
 Record cfg := { c_ext : bool;            (* useExternalCommitAllowance (sync replication) *)
                 c_maxActive : N;         (* MaxActiveTransactions (= size of the precommit buffer) *)
                 c_maxKeyLen : N; c_maxValueLen : N; c_maxTxEntries : N;
-                (* performPrecommit assigns tx.header.BlRoot only when blTxID > 0: with blTxID = 0
-                   the pooled tx holder keeps the BlRoot of its previous use (true = the code as
-                   found; false = BlRoot cleared, the proposed repair).  The harness determines the
-                   value by a probe of the implementation on every run. *)
-                c_stale : bool;
                 (* Options.EmbeddedValues: values live in the tx log, each record is preceded by
                    (total length, values); the reload loop of OpenWith does not skip that prefix and
                    takes no precommitted record back *)
@@ -111,15 +106,15 @@ Definition alh (h : txhdr) : bytes :=
 (* s_tail is the physical content of the tx log after the last committed record, in file order;
    the flag tells whether the record is a live precommitted transaction (true) or was discarded by
    DiscardPrecommittedTxsSince (false: still in the file, re-read by the next Open). *)
-(* s_hold: header.BlRoot left in the pooled tx holder that precommit obtains from fetchAllocTx
-   (sequential calls always get the same holder). *)
 (* s_ghost: records still in the file behind the logical end of the tx log (left there by a reopening
    that did not take them back); the next append overwrites them. *)
-Record store := { s_com : list txrec; s_tail : list (txrec * bool); s_allowed : N; s_hold : bytes;
-                  s_ghost : list txrec }.
+(* s_cap: size of the precommit buffer (MaxActiveTransactions at Open; the recovery loop doubles it
+   while more precommitted transactions are reloaded than fit). *)
+Record store := { s_com : list txrec; s_tail : list (txrec * bool); s_allowed : N;
+                  s_ghost : list txrec; s_cap : N }.
 
-Definition store_init : store :=
-  {| s_com := []; s_tail := []; s_allowed := 0; s_hold := zeros32; s_ghost := [] |}.
+Definition store_open (c : cfg) : store :=
+  {| s_com := []; s_tail := []; s_allowed := 0; s_ghost := []; s_cap := c_maxActive c |}.
 
 Definition live (t : list (txrec * bool)) : list txrec := map fst (filter snd t).
 Definition chain (st : store) : list txrec := s_com st ++ live (s_tail st).
@@ -153,8 +148,8 @@ Definition may_commit (c : cfg) (st : store) : store :=
   let '(a, b) := take_live (N.to_nat n) (s_tail st) in
   (* cLogBuf.readAhead fails when fewer than n transactions are precommitted: error, no change *)
   if lenN a <? n then st else
-  {| s_com := s_com st ++ a; s_tail := b; s_allowed := s_allowed st; s_hold := s_hold st;
-     s_ghost := s_ghost st |}.
+  {| s_com := s_com st ++ a; s_tail := b; s_allowed := s_allowed st;
+     s_ghost := s_ghost st; s_cap := s_cap st |}.
 
 (* digest(): copy into a [32]byte *)
 Definition digest32 (v : bytes) : bytes := take hsize (v ++ repeat 0 32).
@@ -195,25 +190,21 @@ Definition precheck (c : cfg) (skip : bool) (st : store) (b : bytes) : res check
   if negb (beq (pre_alh st) (h_prevalh hdr)) then Err EIllegalArguments else
   Ok {| k_hdr := hdr; k_ents := ents; k_eh := eh; k_blroot := blroot |}.
 
-(* BlRoot in the tx holder once performPrecommit has set the header fields *)
-Definition hold_after (c : cfg) (st : store) (k : checked) : bytes :=
-  if 0 <? h_bltxid (k_hdr k) then k_blroot k
-  else if c_stale c then s_hold st else zeros32.
-
-(* the record performPrecommit serialises and appends to the tx log *)
-Definition new_rec (c : cfg) (st : store) (k : checked) : txrec :=
+(* the record performPrecommit serialises and appends to the tx log; header.BlRoot is cleared and
+   set to RootAt(blTxID) when blTxID > 0 (the value precommit compared with the expected header) *)
+Definition new_rec (st : store) (k : checked) : txrec :=
   let hdr := k_hdr k in
   let h' := {| h_id := pre_id st + 1; h_prevalh := pre_alh st; h_ts := h_ts hdr;
                h_version := h_version hdr; h_md := h_md hdr; h_nentries := lenN (k_ents k);
-               h_eh := k_eh k; h_bltxid := h_bltxid hdr; h_blroot := hold_after c st k |} in
+               h_eh := k_eh k; h_bltxid := h_bltxid hdr; h_blroot := k_blroot k |} in
   {| t_hdr := h'; t_ents := k_ents k; t_alh := alh h' |}.
 
 (* performPrecommit; cLogBuf.put fails when the precommit buffer is full *)
 Definition perform (c : cfg) (st : store) (k : checked) : res store :=
-  if c_maxActive c <=? lenN (live (s_tail st)) then Err EBufferFull else
+  if s_cap st <=? lenN (live (s_tail st)) then Err EBufferFull else
   let st' := {| s_com := s_com st;
-                s_tail := s_tail st ++ [(new_rec c st k, true)];
-                s_allowed := s_allowed st; s_hold := hold_after c st k; s_ghost := [] |} in
+                s_tail := s_tail st ++ [(new_rec st k, true)];
+                s_allowed := s_allowed st; s_ghost := []; s_cap := s_cap st |} in
   Ok (may_commit c st').
 
 (* Ok = a header was returned; Err = an error was returned and the store's transactions are
@@ -222,13 +213,13 @@ Definition replicate (c : cfg) (skip : bool) (st : store) (b : bytes) : res stor
   do k <- precheck c skip st b; perform c st k.
 
 (* the store after a call that did not return a header.  Only a failure inside performPrecommit
-   (precommit buffer full) has touched anything: the tx holder, and the tx log, to which the
+   (precommit buffer full) has touched anything: the tx log, to which the
    record was appended before cLogBuf.put failed -- it stays behind the logical end of the log,
    is overwritten by the next append, and is found by the reload loop of the next Open. *)
 Definition failed_st (c : cfg) (skip : bool) (st : store) (b : bytes) : store :=
   match precheck c skip st b with
   | Ok k => {| s_com := s_com st; s_tail := s_tail st; s_allowed := s_allowed st;
-               s_hold := hold_after c st k; s_ghost := [new_rec c st k] |}
+               s_ghost := [new_rec st k]; s_cap := s_cap st |}
   | _ => st
   end.
 (* state after ReplicateTx whatever its outcome *)
@@ -243,8 +234,8 @@ Definition allow_commit (c : cfg) (st : store) (t : N) : res store :=
   if negb (c_ext c) then Err EIllegalState else
   if t <=? s_allowed st then Ok st else
   let a := if pre_id st <? t then pre_id st else t in
-  Ok (may_commit c {| s_com := s_com st; s_tail := s_tail st; s_allowed := a; s_hold := s_hold st;
-                      s_ghost := s_ghost st |}).
+  Ok (may_commit c {| s_com := s_com st; s_tail := s_tail st; s_allowed := a;
+                      s_ghost := s_ghost st; s_cap := s_cap st |}).
 
 (* marks the last n live records of the tail as discarded *)
 Definition kill_last (n : nat) (t : list (txrec * bool)) : list (txrec * bool) :=
@@ -263,7 +254,7 @@ Definition discard (st : store) (t : N) : res (store * N) :=
   if pre_id st <? t then Ok (st, 0) else
   let n := pre_id st + 1 - t in
   Ok ({| s_com := s_com st; s_tail := kill_last (N.to_nat n) (s_tail st); s_allowed := s_allowed st;
-         s_hold := s_hold st; s_ghost := s_ghost st |}, n).
+         s_ghost := s_ghost st; s_cap := s_cap st |}, n).
 
 (* Close + Open: the tx log is re-read from the committed offset; records are taken back as
    precommitted while they chain (ID = previous+1, PrevAlh = previous Alh), the rest is dropped
@@ -281,26 +272,18 @@ Fixpoint reload (cur : N) (curalh : bytes) (l : list txrec) : list txrec :=
 (* everything physically in the tx log behind the committed offset, in file order *)
 Definition physical (st : store) : list txrec := map fst (s_tail st) ++ s_ghost st.
 
-(* The reopened store's first tx holder has read the last committed transaction, then every record
-   the reload loop got a header of (the reloaded ones and the first that does not chain); its
-   header is the last of them.  (With embedded values the loop mis-parses the values prefix and
-   reads no header; partially overwritten records are taken to be unparsable.) *)
-Definition hold_reopen (c : cfg) (st : store) (back : list txrec) : bytes :=
-  let dflt := match rev back with
-              | r :: _ => h_blroot (t_hdr r)
-              | [] => match rev (s_com st) with r :: _ => h_blroot (t_hdr r) | [] => zeros32 end
-              end in
-  if c_embedded c then dflt else
-  match nth_error (physical st) (length back) with
-  | Some r => h_blroot (t_hdr r)
-  | None => dflt
+(* cLogBuf.grow(2*len) each time a reloaded transaction does not fit *)
+Fixpoint grow_cap (fuel : nat) (m n : N) : N :=
+  match fuel with
+  | O => m
+  | S f => if n <=? m then m else grow_cap f (2 * m) n
   end.
 
 Definition restart (c : cfg) (st : store) : store :=
   let back := if c_embedded c then [] else reload (com_id st) (com_alh st) (physical st) in
   may_commit c {| s_com := s_com st; s_tail := map (fun r => (r, true)) back; s_allowed := com_id st;
-                  s_hold := hold_reopen c st back;
-                  s_ghost := skipn (length back) (physical st) |}.
+                  s_ghost := skipn (length back) (physical st);
+                  s_cap := grow_cap (S (length back)) (c_maxActive c) (lenN back) |}.
 
 (* Alh of transaction t (1-based) among committed and precommitted ones: ReadTxHeader(t, true).Alh() *)
 Definition alh_at (st : store) (t : N) : option bytes :=
